@@ -306,10 +306,11 @@ static void ple_case(const vh_args_t *a, int op, int big) {
        ncols > 64 and width*nrows > __M4RI_PLE_CUTOFF */
     /* 10..13: the two sides of the base-case test itself (exactly one word of columns with more rows than the cutoff
        allows - still the base case; two words at and just above width*nrows = cutoff) */
-    static const int bm[] = {70, 4200, 130, 2100, 1400, 140, 600, 200, 1030, 560, 8200, 4097, 8192, 4096};
-    static const int bn[] = {8200, 70, 4200, 260, 400, 3900, 900, 2800, 500, 960, 64, 128, 64, 128};
-    static const int quickset[] = {0, 1, 2, 3, 4, 10, 11};
-    int t = a->tier ? vh_randint(0, 13) : quickset[(big - 1) % 7];
+    /* 14: more columns than eight times the smallest admissible L1 (the column kernels work in strips of (L1 / 8) / width rows) */
+    static const int bm[] = {70, 4200, 130, 2100, 1400, 140, 600, 200, 1030, 560, 8200, 4097, 8192, 4096, 5};
+    static const int bn[] = {8200, 70, 4200, 260, 400, 3900, 900, 2800, 500, 960, 64, 128, 64, 128, 33100};
+    static const int quickset[] = {0, 1, 2, 3, 4, 10, 11, 14};
+    int t = a->tier ? vh_randint(0, 14) : quickset[(big - 1) % 8];
     bigshape = t;
     m = bm[t]; n = bn[t];
     if (a->maxdim && (m > a->maxdim || n > a->maxdim)) { m = a->maxdim; n = a->maxdim; }
@@ -382,7 +383,7 @@ static void ple_sweep_case(int k, int r, int which) {
 
 int fam_ple(const vh_args_t *a) {
   int ncases = a->cases ? a->cases : (a->tier ? 4000 : 640);
-  int nbig = a->tier ? 84 : 14;
+  int nbig = a->tier ? 90 : 16;
   if (strstr(a->extra, "nobig")) nbig = 0;
   if (strstr(a->extra, "tinyrec")) {
     for (long idx = 0; idx < ncases; idx++) {
@@ -398,7 +399,7 @@ int fam_ple(const vh_args_t *a) {
     if (!VH_SHARD(a, idx)) continue;
     vh_case_seed(a, idx);
     VH_CASE(idx)
-    if (idx >= ncases) ple_case(a, (int)(idx % 4), 1 + (int)((idx - ncases) % 7));
+    if (idx >= ncases) ple_case(a, (int)((idx + (idx - ncases) / 8) % 4), 1 + (int)((idx - ncases) % 8));   /* every shape meets every entry point */
     else ple_case(a, (int)(idx % P_NOPS), 0);
     VH_CASE_END
   }
